@@ -277,6 +277,11 @@ fn programs(depth: usize) -> Vec<(String, Vec<(String, String)>)> {
         ("enum member types and Exclude over an imported enum", vec![("colors.ts", "export enum Color { Red = \"red\", Blue = \"blue\", N = 1 }\n"), ("entry.ts", "import { Color } from \"./colors\";\ntype X = Exclude<Color, Color.Red>;\ntype Y = Color.N | Color.Blue;\nparse.buildParsers<{ X: X, Y: Y }>();\n")]),
         ("generic alias with a semantic computation instantiated with two recursive tuples", vec![("entry.ts", "type L1 = [number, ...L1[]];\ntype L2 = [string, ...L2[]];\ntype NoNull<T> = Exclude<T, null>;\ntype A = NoNull<L1>;\ntype B = NoNull<L2>;\nparse.buildParsers<{ A: A, B: B }>();\n")]),
         ("generic alias with keyof / indexed access instantiated with two recursive objects", vec![("entry.ts", "type R1 = { v: number, next: R1 | null };\ntype R2 = { w: string, prev: R2 | null };\ntype NN<T> = Exclude<T, null>;\ntype K<T> = keyof T;\ntype A = NN<R1 | null>;\ntype B = NN<R2 | null>;\ntype C = K<R1>;\ntype D = K<R2>;\nparse.buildParsers<{ A: A, B: B, C: C, D: D }>();\n")]),
+        ("import type expression with a local type argument, long entry file", vec![("b.ts", "export type Box<T> = { v: T };\n"), ("entry.ts", "// padding padding padding padding padding padding padding\n// padding padding padding padding padding padding padding\n// padding padding padding padding padding padding padding\n// padding padding padding padding padding padding padding\ntype L = { a: string };\ntype X = import(\"./b\").Box<L>;\nparse.buildParsers<{ X: X }>();\n")]),
+        ("import type expression with a type argument that does not exist, long entry file", vec![("b.ts", "export type Box<T> = { v: T };\n"), ("entry.ts", "// padding padding padding padding padding padding padding\n// padding padding padding padding padding padding padding\n// padding padding padding padding padding padding padding\n// padding padding padding padding padding padding padding\ntype X = import(\"./b\").Box<Missing>;\nparse.buildParsers<{ X: X }>();\n")]),
+        ("typeof a property of an imported constant whose initialiser mentions a constant of its own module", vec![("lib.ts", "// padding padding padding padding padding padding padding\n// padding padding padding padding padding padding padding\n// padding padding padding padding padding padding padding\n// padding padding padding padding padding padding padding\nconst DEFAULT_PORT = 8080;\nexport const cfg = { port: DEFAULT_PORT, host: \"h\" };\n"), ("entry.ts", "import { cfg } from \"./lib\";\nimport * as ns from \"./lib\";\ntype P = typeof cfg.port;\ntype Q = typeof ns.cfg.host;\nparse.buildParsers<{ P: P, Q: Q }>();\n")]),
+        ("a named Map next to named objects inside Exclude and a conditional type", vec![("entry.ts", "type Obj = { m: Index, n: number };\ntype Index = Map<string, Obj | null>;\ntype X = Exclude<Obj | Index | string, string>;\ntype Y = Index extends Map<string, unknown> ? 1 : 2;\nparse.buildParsers<{ X: X, Y: Y }>();\n")]),
+        ("two same-named enums in two modules, members used as type arguments", vec![("a.ts", "export enum Status { Active = \"a\", Off = \"o\" }\n"), ("b.ts", "export enum Status { Active = \"b\", Off = \"x\" }\n"), ("entry.ts", "import * as a from \"./a\";\nimport * as b from \"./b\";\ntype Tagged<T> = { tag: T };\nparse.buildParsers<{ A: Tagged<a.Status.Active>, B: Tagged<b.Status.Active>, C: a.Status.Active, D: b.Status.Active }>();\n")]),
         ("four files export a type of the same name at different depths", vec![("a/t.ts", "export type T = { a: string };\n"), ("b/a/t.ts", "export type T = { b: string };\n"), ("c/b/a/t.ts", "export type T = { c: string };\n"), ("t.ts", "export type T = { d: string };\n"),
             ("entry.ts", "import { T as T1 } from \"./a/t\";\nimport { T as T2 } from \"./b/a/t\";\nimport { T as T3 } from \"./c/b/a/t\";\nimport { T as T4 } from \"./t\";\nparse.buildParsers<{ T1: T1, T2: T2, T3: T3, T4: T4 }>();\n")]),
     ];
